@@ -129,7 +129,16 @@ def run(ctx: Ctx, tier: str) -> Result:
     # ---------------- WINDOW
     wf = p.func(WIN + ".in_window")
     wt = Table(ctx, wf)
-    S, E, TSW = term(ctx, wf, "self._start"), term(ctx, wf, "self._end"), P(wf, 1)
+    wcls = p.cls(WIN)
+    winit = wcls.lookup("__init__")
+    fld = {}
+    for (cq, attr), lst in t._attr_store_index().items():
+        if cq == WIN:
+            for sf_, v_, _ in lst:
+                if sf_ is winit and isinstance(v_, ast.Name) and v_.id in winit.params[1:3]:
+                    fld[v_.id] = attr
+    need(len(fld) == 2, "TracepointWindow.__init__ does not store its start and end arguments")
+    S, E, TSW = "@self." + fld[winit.params[1]], "@self." + fld[winit.params[2]], P(wf, 1)
     rv = Vars()
     for x in (S, E):
         rv.enum(x, 0); rv.num(x, 0)
